@@ -29,15 +29,16 @@ import (
 
 // Phase is one exhaustive enumeration belonging to a check.
 type Phase struct {
-	Name    string
-	Bound   int                // deviation bound for Dev choices
-	Body    func(c *explore.C) // E1 harness body (nil when Custom is set)
-	Custom  func(p *PhaseCtx)  // E2/E3 engines report through PhaseCtx
-	NoShard bool               // run in a single worker
-	Env     []string           // extra environment of the phase's worker processes
-	Gate    bool               // the body calls c.Gate(): shard by hash of the leading choices
-	Race    bool               // run this phase in the race-detector build of the checker ($VERIF_RACE_BIN)
-	Rule    string             // how cases are enumerated, what makes an outcome distinct
+	Name       string
+	Bound      int                // deviation bound for Dev choices
+	Body       func(c *explore.C) // E1 harness body (nil when Custom is set)
+	Custom     func(p *PhaseCtx)  // E2/E3 engines report through PhaseCtx
+	NoShard    bool               // run in a single worker
+	Env        []string           // extra environment of the phase's worker processes
+	FineCrumbs bool               // write the breadcrumb after every choice (scheduled runs: a death is pinned to the schedule)
+	Gate       bool               // the body calls c.Gate(): shard by hash of the leading choices
+	Race       bool               // run this phase in the race-detector build of the checker ($VERIF_RACE_BIN)
+	Rule       string             // how cases are enumerated, what makes an outcome distinct
 }
 
 // PhaseCtx lets custom engines report statistics and failures.
@@ -144,6 +145,7 @@ type Obs struct {
 	samples  []interface{}
 	extra    map[string]int64
 	crumb    *os.File
+	skip     []string // choice sequences not to execute again
 }
 
 // Cur is the observation sink of the running worker (one goroutine drives it).
@@ -172,8 +174,26 @@ func (o *Obs) Sample(f func() interface{}) {
 	}
 }
 
+//go:norace
+func (o *Obs) crumbNoSkip(choices []int) {
+	if o.crumb == nil {
+		return
+	}
+	b, _ := json.Marshal(choices)
+	b = append(b, '\n')
+	o.crumb.WriteAt(append(b, make([]byte, 8)...), 0)
+}
+
 // Crumb records the case about to be executed so that a worker death can be pinned.
 func (o *Obs) Crumb(choices []int) {
+	if len(o.skip) > 0 {
+		k := fmt.Sprint(choices)
+		for _, s := range o.skip {
+			if s == k {
+				explore.SkipExecution() // this case killed an earlier worker of this shard: already reported
+			}
+		}
+	}
 	if o.crumb == nil {
 		return
 	}
@@ -303,6 +323,14 @@ func runWorker(ck *Check, tier universe.Tier, spec, out string, budget time.Dura
 	if f, err := os.Create(out + ".crumb"); err == nil {
 		Cur.crumb = f
 	}
+	if b, err := os.ReadFile(out + ".skip"); err == nil {
+		for _, l := range strings.Split(string(b), "\n") {
+			var ch []int
+			if json.Unmarshal([]byte(l), &ch) == nil && len(ch) > 0 {
+				Cur.skip = append(Cur.skip, fmt.Sprint(ch))
+			}
+		}
+	}
 	if pf := os.Getenv("VERIF_CPUPROFILE"); pf != "" {
 		if f, err := os.Create(pf); err == nil {
 			pprof.StartCPUProfile(f)
@@ -324,6 +352,15 @@ func runWorker(ck *Check, tier universe.Tier, spec, out string, budget time.Dura
 			ph.Custom(&PhaseCtx{Tier: tier, Shard: shard, N: n, Deadline: deadline, R: res})
 		} else {
 			e := &explore.Explorer{Bound: ph.Bound, Shard: shard, NShards: n, Deadline: deadline, GateSharding: ph.Gate}
+			if ph.FineCrumbs {
+				e.OnChoice = Cur.crumbNoSkip
+			}
+			if len(Cur.skip) > 0 {
+				e.SkipSeqs = map[string]bool{}
+				for _, k := range Cur.skip {
+					e.SkipSeqs[k] = true
+				}
+			}
 			e.Run(ph.Body)
 			res.Executions = e.Stats.Executions
 			res.States = e.Stats.Nodes
@@ -490,6 +527,26 @@ func runCheck(ck *Check, tier universe.Tier, tierS string, nworkers int, budget 
 			go func(s int) {
 				defer wg.Done()
 				out := filepath.Join(tmp, fmt.Sprintf("%s-%d.json", ph.Name, s))
+				for attempt := 0; attempt < 6; attempt++ {
+					if again := runShard(ck, ph, bin, tierS, s, n, out, per, total, &mu); !again {
+						break
+					}
+				}
+			}(s)
+		}
+		wg.Wait()
+		results = append(results, total)
+	}
+	_ = deadline
+	return finishCheck(ck, tier, tierS, self, results, start)
+}
+
+// runShard runs one worker of a phase; it returns true when the worker died on a pinned case and
+// the shard should be run again stepping over that case.
+func runShard(ck *Check, ph *Phase, bin, tierS string, s, n int, out string, per time.Duration, total *PhaseResult, mu *sync.Mutex) (again bool) {
+	{
+		{
+			{
 				cmd := exec.Command(bin, ck.ID, "--tier", tierS, "--worker", fmt.Sprintf("%s:%d/%d", ph.Name, s, n), "--out", out, "--budget", per.String())
 				cmd.Env = append(os.Environ(), "GOMAXPROCS=1", "GORACE=halt_on_error=1 exitcode=66")
 				cmd.Env = append(cmd.Env, ph.Env...)
@@ -518,6 +575,12 @@ func runCheck(ck *Check, tier universe.Tier, tierS string, nworkers int, budget 
 						total.Failures = append(total.Failures, &FailureRec{Property: ck.ID, Phase: ph.Name, Class: class,
 							Msg: what, Choices: ch,
 							Case: map[string]interface{}{"class": class, "output": tail}})
+						// run the shard again, stepping over this case, so that the rest of it is explored
+						if f, err := os.OpenFile(out+".skip", os.O_APPEND|os.O_CREATE|os.O_WRONLY, 0o644); err == nil {
+							f.WriteString(line + "\n")
+							f.Close()
+							again = true
+						}
 					} else {
 						total.HarnessErr = fmt.Sprintf("worker %d of phase %s died without a breadcrumb: %v\n%s", s, ph.Name, err, tail)
 					}
@@ -530,12 +593,13 @@ func runCheck(ck *Check, tier universe.Tier, tierS string, nworkers int, budget 
 					return
 				}
 				total.merge(&r)
-			}(s)
+			}
 		}
-		wg.Wait()
-		results = append(results, total)
 	}
+	return false
+}
 
+func finishCheck(ck *Check, tier universe.Tier, tierS, self string, results []*PhaseResult, start time.Time) int {
 	// ---- classify failures
 	findings := loadFindings()
 	violations := 0
